@@ -332,9 +332,16 @@ pub fn kenc_draws(t: &Templates, seed: u64, scn: &Value) -> Value {
     let plain = pbytes(ju64_or(scn, "pseed", 1), 0, ju64_or(scn, "plen", 10));
     // the plaintext source may deliver short reads (the chunking, hence the nonces, follows them)
     let reads: Vec<usize> = jarr(scn, "reads").iter().map(|x| x.as_u64().unwrap() as usize).collect();
-    struct Chunked<'a> { d: &'a [u8], reads: Vec<usize>, i: usize }
+    // "intr_at": the read call (0-based) that fails once with ErrorKind::Interrupted (a legal, retryable condition of Read)
+    let intr_at = scn.get("intr_at").and_then(|x| x.as_u64()).map(|x| x as usize);
+    struct Chunked<'a> { d: &'a [u8], reads: Vec<usize>, i: usize, intr_at: Option<usize> }
     impl<'a> std::io::Read for Chunked<'a> {
         fn read(&mut self, buf: &mut [u8]) -> std::io::Result<usize> {
+            if self.intr_at == Some(self.i) {
+                self.i += 1;
+                self.intr_at = None;
+                return Err(std::io::Error::new(std::io::ErrorKind::Interrupted, "injected: interrupted"));
+            }
             let want = if self.i < self.reads.len() { self.reads[self.i] } else { buf.len() };
             self.i += 1;
             let n = std::cmp::min(std::cmp::min(want, buf.len()), self.d.len());
@@ -348,7 +355,7 @@ pub fn kenc_draws(t: &Templates, seed: u64, scn: &Value) -> Value {
         let sk = PrivateKey::try_from(&k.s_priv[..]).unwrap();
         let spk = PublicKey::try_from(&k.s_pub[..]).unwrap();
         let rpk = PublicKey::try_from(&k.r_pub[..]).unwrap();
-        let mut p = Chunked { d: &plain[..], reads: reads.clone(), i: 0 };
+        let mut p = Chunked { d: &plain[..], reads: reads.clone(), i: 0, intr_at };
         key_encrypt(&mut p, &mut out, &sk, &spk, &rpk, None, None, None, AsymFileFormat::V1).map(|_| out)
     }));
     match r {
@@ -357,6 +364,8 @@ pub fn kenc_draws(t: &Templates, seed: u64, scn: &Value) -> Value {
             o["sender_ok"] = json!(o.get("sender_pub").and_then(|x| x.as_str()) == Some(&hex(&k.s_pub)));
             o
         }
+        // an interrupted read may legitimately end the operation with an error: then nothing is claimed about it
+        Ok(Err(_)) if intr_at.is_some() => json!({"ev":"opened","id":scn.get("id").cloned().unwrap_or(json!("")),"ok":false,"flen":0,"failed_as_allowed":true}),
         _ => json!({"ev":"opened","id":scn.get("id").cloned().unwrap_or(json!("")),"ok":false,"flen":0}),
     }
 }
